@@ -199,7 +199,7 @@ func main() {
 			"each logical history run on scorch-disk (as an event trace too, with 5 persister/merge option variants, forced merges, older zap versions, bursts of unobserved batches), scorch-mem, upsidedown over gtreap/boltdb/goleveldb/moss; " +
 			"observed after every step: DocCount, Document(id) for all ids, match-all with stored version, doc-id query, GetInternal for all keys; " +
 			"non-trivial: some id written at least twice and some previously written id deleted (traces: additionally at least one merge introduced)",
-		ShardSize: 40,
+		ShardSize: 10,
 		Workers:   6,
 	}, gen, exec)
 }
